@@ -19,6 +19,29 @@ CLAIMED = {
         design="§5 C16"),
 }
 
+CLAIMED["C14"] = dict(
+    text="Machine-checked proofs (Lean 4) about a step-for-step model of jsonpointer.hpp: parse and to_string are mutually inverse for all token "
+         "lists / accepted strings; array-index tokens are accepted exactly per RFC 6901 (within size_t); get is sound and complete w.r.t. RFC 6901 "
+         "evaluation; every failing add/add_if_absent/replace/remove (incl. create_if_missing) leaves the document untouched; a successful write is "
+         "read back by get; '-' appends, add inserts, replace overwrites. Tied to the code by differential correspondence (json and ojson) and "
+         "judged against the Lean RFC 6901/6902 Spec and an independent Python RFC 6901 tokenizer on the real outputs.",
+    note="Trusted: Lean kernel + standard axioms; hand-written model validated by the correspondence run only; flatten is modelled and tied, "
+         "unflatten(flatten(d)) = d is only observed on the real code (unflatten is not modelled); refinement of the modifying operations to the "
+         "Spec is checked per case by the driver, not proved.",
+    technique="Lean 4 theorems (inverse pair, refinement of get, failure atomicity) + differential correspondence + Lean Spec oracle",
+    design="§5 C14")
+CLAIMED["C15"] = dict(
+    text="Lean 4 model of jsonpatch.hpp apply_patch (definite_path, insert-else-replace fallback, undo log, unwinder that stops at the first failing "
+         "undo) and from_diff; proved: every failing operation that logged nothing leaves the document untouched (hence atomicity at the first "
+         "failure), malformed/unknown operations are rejected, test is pure, root targets log a restoring undo. RFC 6902 conformance, atomicity "
+         "at every position and the diff law are decided per case by the correspondence run against the Lean RFC 6902 Spec and by the oracle on "
+         "the real outputs (partial proof: the inversion lemmas for the undo log are not yet proved).",
+    note="Partial: general atomicity (failure after k > 0 successful operations), refinement to the Spec and the diff law are validated by "
+         "differential testing against the executable Lean Spec, not proved. Trusted: model, harness, generators. Known finding D18 (ojson test "
+         "is member-order sensitive) is listed in known_findings.json.",
+    technique="Lean 4 theorems (failure leaves document, rejection) + correspondence vs executable Lean RFC 6902 Spec",
+    design="§5 C15")
+
 ALL = ["C%02d" % i for i in range(1, 21)]
 NOT_YET = "not claimed yet: the Lean model, theorems and correspondence harness for this property are still being built (see DESIGN.md §8 staging)"
 
